@@ -5,6 +5,7 @@ import (
 	"go/token"
 	"go/types"
 	"sort"
+	"strings"
 
 	"golang.org/x/tools/go/ssa"
 
@@ -18,10 +19,26 @@ import (
 
 // objKey identifies a protocol object: a local variable (through closure
 // captures), or a field of a repository struct type (one pool per flush).
-func objKey(v ssa.Value) string {
+func objKey(v ssa.Value) string { return objKeyDepth(v, 0) }
+
+func objKeyDepth(v ssa.Value, depth int) string {
 	for i := 0; i < 8; i++ {
 		o := ir.Origin(v)
 		switch x := o.(type) {
+		case *ssa.Extract, *ssa.Call:
+			// the object was handed out by a helper of the repository (startStoreWorkers returns the queue it made):
+			// it is the object that every return of the helper yields at that position
+			rs := returnedAt(o)
+			if len(rs) == 0 || depth > 3 {
+				return ""
+			}
+			key := objKeyDepth(rs[0], depth+1)
+			for _, r := range rs[1:] {
+				if objKeyDepth(r, depth+1) != key {
+					return ""
+				}
+			}
+			return key
 		case *ssa.Alloc:
 			return fmt.Sprintf("local:%s.%s", ir.FuncName(x.Parent()), x.Name())
 		case *ssa.FieldAddr:
@@ -44,16 +61,128 @@ func objKey(v ssa.Value) string {
 			if x.Referrers() != nil {
 				for _, r := range *x.Referrers() {
 					if st, ok := r.(*ssa.Store); ok && st.Val == ssa.Value(x) {
-						return objKey(st.Addr)
+						return objKeyDepth(st.Addr, depth)
 					}
 				}
 			}
-			return ""
+			// never stored: the channel is only ever used through this value
+			return fmt.Sprintf("local:%s.%s", ir.FuncName(x.Parent()), x.Name())
+		case *ssa.Parameter:
+			// the object was handed in by the caller (startStoreWorkers(storeQ, n)): it is the object every call
+			// site of the helper passes at that position; only for unexported top-level functions of the repository
+			// that are never used as values, so that the static call sites are all the callers there are
+			fn := x.Parent()
+			sites := objKeyCallers.sites(fn)
+			idx := paramIndex(x)
+			if len(sites) == 0 || idx < 0 || depth > 3 {
+				return ""
+			}
+			key := ""
+			for n, cs := range sites {
+				args := cs.Common().Args
+				if cs.Common().IsInvoke() || len(args) != len(fn.Params) {
+					return ""
+				}
+				k := objKeyDepth(args[idx], depth+1)
+				if k == "" || (n > 0 && k != key) {
+					return ""
+				}
+				key = k
+			}
+			return key
 		default:
 			return ""
 		}
 	}
 	return ""
+}
+
+// objKeyCallers: the call sites through which objKey may follow a parameter back to the argument (set by findFlush).
+var objKeyCallers callerSites
+
+type callerSites struct {
+	callers   map[*ssa.Function][]ssa.CallInstruction
+	addrTaken map[*ssa.Function]bool
+}
+
+func (cs callerSites) sites(fn *ssa.Function) []ssa.CallInstruction {
+	if cs.callers == nil || fn == nil || fn.Parent() != nil || cs.addrTaken[fn] || fn.Object() == nil || fn.Object().Exported() {
+		return nil
+	}
+	return cs.callers[fn]
+}
+
+// returnedAt: v is the result (or one component of the result) of a static call of a function of the repository
+// with a body; the values its returns yield at that position (nil when v is not such a result, or a return cannot
+// be read).
+func returnedAt(v ssa.Value) []ssa.Value {
+	idx := 0
+	var call *ssa.Call
+	switch x := v.(type) {
+	case *ssa.Extract:
+		call, _ = x.Tuple.(*ssa.Call)
+		idx = x.Index
+	case *ssa.Call:
+		call = x
+		if call.Call.Signature().Results().Len() != 1 {
+			return nil
+		}
+	}
+	if call == nil || call.Call.IsInvoke() {
+		return nil
+	}
+	h := calleeOrClosure(&call.Call)
+	if h == nil || h.Blocks == nil {
+		return nil
+	}
+	var out []ssa.Value
+	for _, r := range ir.Returns(h) {
+		if len(r.Block().Preds) == 0 && r.Block().Index != 0 {
+			continue // recover block
+		}
+		if idx >= len(r.Results) {
+			return nil
+		}
+		out = append(out, r.Results[idx])
+	}
+	return out
+}
+
+// machCallee: the function a call of the flush machinery runs: a static callee, a local closure, or a closure that
+// a helper handed out (q, finish := startStoreWorkers(n); ...; finish()) — every return of the helper yields a
+// closure of the same function at that position.
+func machCallee(com *ssa.CallCommon) *ssa.Function {
+	if com.IsInvoke() {
+		return nil
+	}
+	if f := calleeOrClosure(com); f != nil {
+		return f
+	}
+	return returnedFunc(ir.Origin(com.Value), 0)
+}
+
+func returnedFunc(v ssa.Value, depth int) *ssa.Function {
+	rs := returnedAt(v)
+	if len(rs) == 0 || depth > 3 {
+		return nil
+	}
+	var fn *ssa.Function
+	for _, r := range rs {
+		var f *ssa.Function
+		switch x := ir.Origin(r).(type) {
+		case *ssa.MakeClosure:
+			f, _ = x.Fn.(*ssa.Function)
+		case *ssa.Function:
+			f = x
+		case *ssa.Extract, *ssa.Call:
+			f = returnedFunc(x, depth+1)
+		}
+		if f == nil || (fn != nil && f != fn) {
+			return nil
+		}
+		fn = f
+	}
+	return fn
 }
 
 type flushShape struct {
@@ -68,6 +197,7 @@ type flushShape struct {
 }
 
 func findFlush(c *Ctx) *flushShape {
+	objKeyCallers = callerSites{callers: c.P.Callers, addrTaken: c.Facts.addrTaken}
 	mk := c.MustFunc("(*Mast).MakeRoot")
 	sites := storeSites(c)
 	if mk == nil || len(sites) == 0 {
@@ -149,7 +279,7 @@ func findFlush(c *Ctx) *flushShape {
 		} else {
 			// a call in F to the helper that waits on every path
 			for _, ci := range CallsOf(F) {
-				if ir.Callee(ci.Common()) == sh.waitFn && allReturnsPass(sh.waitFn, func(i ssa.Instruction) bool { return i == ssa.Instruction(sh.waitIn) }) {
+				if machCallee(ci.Common()) == sh.waitFn && allReturnsPass(sh.waitFn, func(i ssa.Instruction) bool { return i == ssa.Instruction(sh.waitIn) }) {
 					sh.wait = ci
 				}
 			}
@@ -239,7 +369,7 @@ func (sh *flushShape) eventsIn(fn *ssa.Function, pred func(ssa.Instruction) bool
 				continue
 			}
 			if call, ok := ins.(*ssa.Call); ok {
-				if sc := ir.Callee(call.Call); sc != nil && sh.scope[sc] && sc != fn {
+				if sc := machCallee(&call.Call); sc != nil && sh.scope[sc] && sc != fn {
 					if allReturnsPass(sc, func(i ssa.Instruction) bool {
 						if pred(i) {
 							return true
@@ -908,7 +1038,7 @@ func runBARRIER(c *Ctx) {
 
 // isLocalTo: the object is a local variable of fn itself (not captured from outside).
 func isLocalTo(key string, fn *ssa.Function) bool {
-	return len(key) > 6 && key[:6] == "local:" && key[6:6+len(ir.FuncName(fn))] == ir.FuncName(fn) && len(key) > 6+len(ir.FuncName(fn)) && key[6+len(ir.FuncName(fn))] == '.'
+	return strings.HasPrefix(key, "local:"+ir.FuncName(fn)+".")
 }
 
 // cellAfterWait: v is the writers' error, read after the barrier: a load of the
@@ -1098,7 +1228,7 @@ func (sh *flushShape) cellValue(v ssa.Value, isE func(ssa.Value) bool) (at ssa.I
 	if !isCall {
 		return nil, false
 	}
-	h := calleeOrClosure(&call.Call)
+	h := machCallee(&call.Call)
 	if h == nil || h == sh.F || !sh.scope[h] || h.Blocks == nil {
 		return nil, false
 	}
